@@ -1,0 +1,10 @@
+//go:build verif
+
+package nat
+
+// Verification seams for property C10, third pass (the port-block log as it is on disk).
+// Exported wrappers around unexported functions; no behaviour of their own.
+
+// VerifC10bCleanOldLogs runs one age-based retention pass, exactly what the hourly
+// tick of rotationLoop runs.
+func (l *Logger) VerifC10bCleanOldLogs() { l.cleanOldLogs() }
